@@ -179,7 +179,8 @@ def analog_tjm_2(args: tuple[int, MPS, NoiseModel | None, AnalogSimParams, MPO])
         sample(phi, hamiltonian, noise_model, sim_params, results, j=1, rng=rng)
 
     for j, _ in enumerate(sim_params.times[2:], start=2):
-        phi = step_through(phi, hamiltonian, noise_model, sim_params, sim_params.times[j], rng=rng)
+        # phi is advanced from t_{j-2} to t_{j-1} here; sample() below evolves a copy on to t_j
+        phi = step_through(phi, hamiltonian, noise_model, sim_params, sim_params.times[j - 1], rng=rng)
         if sim_params.sample_timesteps or j == len(sim_params.times) - 1:
             sample(phi, hamiltonian, noise_model, sim_params, results, j, rng=rng)
 
